@@ -6,6 +6,7 @@ import (
 	"math/rand"
 	"time"
 
+	"Havoc/cmd/server"
 	"Havoc/pkg/handlers"
 
 	"verifh/opclient"
@@ -198,10 +199,12 @@ func (w *world) opMark(by int, a *agentState, dead bool) error {
 // opVisitor: a fourth operator logs in and leaves again (new-user / disconnected events).
 func (w *world) opVisitor() error {
 	from := w.mons[0].Count()
+	keys0 := w.clientKeys()
 	d, err := opclient.Connect(w.addr, "dave", "pw-dave")
 	if err != nil {
 		return &syncErr{"visitor login: " + err.Error()}
 	}
+	id := newKey(keys0, w.clientKeys())
 	isChat := func(sub int) func(opclient.Frame) bool {
 		return func(f opclient.Frame) bool {
 			return f.Head.Event == opclient.EvChat && f.Body.SubEvent == sub && f.InfoStr("User") == "dave"
@@ -223,7 +226,7 @@ func (w *world) opVisitor() error {
 	if !waitPred(w.mons[0], from, isChat(opclient.ChatUserDisc)) {
 		return &syncErr{"disconnect event of visitor not broadcast"}
 	}
-	return nil
+	return w.waitGone(id)
 }
 
 // history runs n random sequential operations.
@@ -316,6 +319,7 @@ func (w *world) history(rng *rand.Rand, n int, counts map[string]int) error {
 // ---------------------------------------------------------------------------------
 
 type loginResult struct {
+	id      string // the teamserver's id of this connection ("" unknown)
 	cl      *opclient.Client
 	name    string
 	replay  []opclient.Frame // frames strictly between verdict and marker
@@ -373,6 +377,7 @@ func (w *world) quiescentLoginCheck(dial func() (*opclient.Client, error)) (*log
 		return nil, nil, err
 	}
 	s0 := snapshotLog(w.ts.EventsList)
+	keys0 := w.clientKeys()
 	cl, err := dial()
 	if err != nil {
 		return nil, nil, &syncErr{"newcomer dial: " + err.Error()}
@@ -383,6 +388,7 @@ func (w *world) quiescentLoginCheck(dial func() (*opclient.Client, error)) (*log
 		cl.Close()
 		return nil, nil, err
 	}
+	res.id = newKey(keys0, w.clientKeys())
 	// the other operators have been told about the newcomer before we look again
 	if err := w.barrier(); err != nil {
 		cl.Close()
@@ -402,7 +408,31 @@ func (w *world) leave(res *loginResult) error {
 	}) {
 		return &syncErr{"disconnect of " + res.name + " not broadcast"}
 	}
-	return nil
+	return w.waitGone(res.id)
 }
 
-var _ = time.Second
+func newKey(before, after map[string]*server.Client) string {
+	for k := range after {
+		if _, old := before[k]; !old {
+			return k
+		}
+	}
+	return ""
+}
+
+// waitGone waits until the teamserver has dropped a connection from its client table: the
+// Delete is the last step of RemoveClient, after its own broadcast, so nothing caused by
+// that connection is in flight any more.
+func (w *world) waitGone(id string) error {
+	if id == "" {
+		return nil
+	}
+	deadline := time.Now().Add(syncWait)
+	for time.Now().Before(deadline) {
+		if _, ok := w.ts.Clients.Load(id); !ok {
+			return nil
+		}
+		time.Sleep(time.Millisecond)
+	}
+	return &syncErr{"connection " + id + " never left the client table"}
+}
